@@ -63,13 +63,13 @@ def main : IO Unit := do
         if shown < 6 then
           shown := shown + 1
           IO.println s!"DISAGREE emit_loop code_len_after_opcode={len} loop_start={off} gen={reprStr g} model={reprStr (JumpLimits.emitLoop len off)}"
-      -- patch_offset_at (operand positions 0,1 of a 4-byte scratch chunk)
-      let scratch : List (BitVec 8) := List.replicate 4 0
-      let g := Fns.patch_offset_at 0 (off : Int) code scratch
+      -- patch_offset_at (operand positions 0,1 of the chunk itself)
+      let g := Fns.patch_offset_at 0 (off : Int) code
       let agree : Bool := match JumpLimits.patchOffsetAt len off, g with
         | .fault, .panic => true
         | .tooLarge, .ok (_, _, effs) => effs.any (·.callee == "self.error")
-        | .ok operand, .ok (_, c, effs) => c == (scratch.set 0 (loByte operand)).set 1 (hiByte operand) && effs.isEmpty
+        | .ok operand, .ok (_, c, effs) => c == (code.set 0 (loByte operand)).set 1 (hiByte operand) && effs.isEmpty
+        | .ok _, .panic => len < 2      -- no room for the two operand bytes
         | _, _ => false
       if !agree then
         n := n + 1
